@@ -1384,6 +1384,9 @@ func (st *Runtime) evaluateArgs(fnType reflect.Type, args CallArgs, pipedArg *re
 		in := fnType.In(slot)
 		var term reflect.Value
 		if args.Exprs[i].Type() == NodeUnderscore {
+			if pipedArg == nil {
+				return nil, fmt.Errorf("argument for position %d in %s is the '_' placeholder, but there is no piped value", slot, fnType)
+			}
 			term = *pipedArg
 		} else {
 			term = st.evalPrimaryExpressionGroup(args.Exprs[i])
@@ -1404,6 +1407,9 @@ func (st *Runtime) evaluateArgs(fnType reflect.Type, args CallArgs, pipedArg *re
 		for i < len(args.Exprs) {
 			var term reflect.Value
 			if args.Exprs[i].Type() == NodeUnderscore {
+				if pipedArg == nil {
+					return nil, fmt.Errorf("argument for position %d in %s is the '_' placeholder, but there is no piped value", slot, fnType)
+				}
 				term = *pipedArg
 			} else {
 				term = st.evalPrimaryExpressionGroup(args.Exprs[i])
